@@ -33,7 +33,7 @@ RULE = (
     "case = (connection kind: UDPTunnel auto_reconnect on/off | UDPDeviceManagementConnection, in-order prefix length, list of ops (gap, kind, arg, delivery delay)); "
     "kinds: e expected, r expected-1, o expected+k (k in 1..254), a absolute counter, d counter of the previous datagram, b burst of n in-order frames, x server DisconnectRequest + new handshake; "
     "delivery delays 5 ms..1 s reorder datagrams, gaps 0..2.5 s straddle the 2 s out-of-order timer; every symbol sequence over {e,r,o+1,o+128,d,x,2.1 s pause} up to length 4 (quick) / 6 (thorough) "
-    "is enumerated from expected=0 and (shorter) from expected=254; non-trivial = the delivered history contains a repeated or out-of-order datagram, a second handshake or more than 256 expected frames; distinct by case"
+    "is enumerated from expected=0 and up to length 2 / 4 from expected=254; non-trivial = the delivered history contains a repeated or out-of-order datagram, a second handshake or more than 256 expected frames; distinct by case"
 )
 LEVEL_TEXT = "Generated and bounded-exhaustive request histories are replayed against the real UDP tunnel and UDP device-management handlers in virtual time; deliveries and acknowledgements are compared datagram by datagram with a mod-256 reference model that is reset at every Connect handshake on the wire."
 LEVEL_NOTE = "Only own-channel datagrams are sent, and only while the simulated server holds an established channel; TCP connections do not evaluate counters and are out of scope; KNX/IP codec used for the wire log is trusted here (C20/C21)."
@@ -340,7 +340,7 @@ _op = st.one_of(
 @st.composite
 def cases(draw):
     conn, ar = draw(st.sampled_from(VARIANTS))
-    prefix = draw(st.sampled_from([0, 0, 0, 3, 250, 253, 254, 255, 256, 257, 300, 509, 511, 512]))
+    prefix = draw(st.sampled_from([0, 0, 0, 0, 0, 0, 3, 3, 250, 254, 255, 256, 300, 511]))
     ops = draw(st.lists(_op, min_size=1, max_size=24))
     return {"conn": conn, "auto_reconnect": ar, "prefix": prefix, "ops": [list(o) for o in ops], "tail": draw(st.sampled_from([0.5, 2.5]))}
 
@@ -406,7 +406,7 @@ def selftest(ctx) -> None:
 
 def run(ctx) -> None:
     L0 = ctx.n(4, 6)
-    L254 = ctx.n(3, 4)
+    L254 = ctx.n(2, 4)
     jobs = []
     for length in range(1, L0 + 1):
         for first in SYMS:
@@ -416,7 +416,7 @@ def run(ctx) -> None:
             jobs.append((length, first, 254))
     parallel(ctx, _enum_shard, jobs)
     parallel(ctx, _wrap_shard, [(c, ar, v) for c, ar in VARIANTS for v in range(4)])
-    parallel(ctx, _hyp_shard, [(ctx.n(150, 4000),)] * 16)
+    parallel(ctx, _hyp_shard, [(ctx.n(100, 4000),)] * 16)
     ctx.exhaustive = False
     ctx.notes["enumerated_symbol_sequences_up_to"] = {"from_expected_0": L0, "from_expected_254": L254}
 
